@@ -28,6 +28,17 @@ def sizes(rng, rs):
 
 
 def generate(tier, rng):
+    # every sized-read schedule is also run with the remainder drained by io.Copy (the usual consumer; uses the source's WriteTo if any)
+    n = 0
+    for op in generate0(tier, rng):
+        yield op
+        if op.startswith('mice.dec '):
+            n += 1
+            if n % 3 == 0 or len(op) < 400:
+                yield 'mice.dec.copy ' + op[len('mice.dec '):]
+
+
+def generate0(tier, rng):
     thorough = tier == 'thorough'
     cases = []
     for d in ('02', '03'):
@@ -75,6 +86,23 @@ def generate(tier, rng):
         for bad in (h[:-1], h + b'A', h.replace(b'=', b':', 1), b'mi-sha256=' + h.split(b'=', 1)[1], h.split(b'=', 1)[1], b'', h.upper(),
                     (b'mi-sha256-03=' if d == '02' else b'mi-sha256-draft2=') + h.split(b'=', 1)[1], h + b'\n', h[:20] + b'\r\n' + h[20:]):
             yield f'mice.all {d} 16384 {hexs(bad)} {hexs(s)}'
+        # digests (and in-stream proofs) that differ from the right one only under a textual equivalence of their base64 spelling:
+        # letter case of single characters / of all characters, '+/' vs '-_' alphabet, padding
+        import base64 as _b64
+        hname, hval = h.split(b'=', 1)
+        letters = [i for i, c in enumerate(hval) if chr(c).isalpha()]
+        for i in (letters[:2] + letters[-2:] + (rng.sample(letters, min(4, len(letters))) if letters else [])):
+            yield f'mice.all {d} 16384 {hexs(hname + b"=" + hval[:i] + bytes([hval[i] ^ 0x20]) + hval[i + 1:])} {hexs(s)}'
+        yield f'mice.all {d} 16384 {hexs(hname + b"=" + hval.swapcase())} {hexs(s)}'
+        yield f'mice.all {d} 16384 {hexs(hname + b"=" + hval.translate(bytes.maketrans(b"+/-_", b"-_+/")))} {hexs(s)}'
+        yield f'mice.all {d} 16384 {hexs(hname + b"=" + (hval.rstrip(b"=") if hval.endswith(b"=") else hval + b"="))} {hexs(s)}'
+        if len(s) >= 8 + rs + 32:
+            pr = s[8 + rs:8 + rs + 32]
+            t64 = _b64.b64encode(pr)
+            li = [i for i, c in enumerate(t64) if chr(c).isalpha()]
+            for i in li[:1] + li[-1:]:
+                alt = _b64.b64decode(t64[:i] + bytes([t64[i] ^ 0x20]) + t64[i + 1:])
+                yield f'mice.all {d} 16384 {hh} {hexs(s[:8 + rs] + alt + s[8 + rs + 32:])}'
         # honest stream of another payload under this digest
         s2, h2 = micelib.encode(p + b'!', rs, d)
         yield f'mice.all {d} 16384 {hh} {hexs(s2)}'
